@@ -2,12 +2,12 @@ package main
 
 import (
 	"bufio"
-	"os"
-	"runtime"
 	"encoding/binary"
 	"encoding/hex"
 	"flag"
 	"fmt"
+	"os"
+	"runtime"
 	"sort"
 	"strings"
 	"time"
@@ -36,38 +36,38 @@ type dirInfo struct {
 }
 
 type seqRun struct {
-	r        *Rng
-	d        *SparseDisk
-	srv      *nfs.Nfs
-	unstable bool
-	objs     map[string]*objInfo // by handle hex: believed live
-	dirs     map[string]*dirInfo
-	stale    [][]byte
-	nameCtr  int
-	dead     bool // server panicked or hung
-	hist     map[string]int
-	opTimeout time.Duration
-	cur      [][]byte          // handle-typed arguments of the operation being issued
-	deadH    map[string]bool   // handles of objects known to be removed or overwritten
-	issued   map[string]bool   // every handle a creation ever returned
-	c09      bool              // compare full dumps around failing operations
-	lastDump string
-	lastFree [2]uint64
-	nOracle  int
-	sink     func(string)      // where this run's lines go (default: stdout)
-	slotHook func() int        // concurrent mode: the slot captured under the locks
-	pool     []string          // concurrent mode: shared pool of names
-	inline   bool              // concurrent mode: run calls in the calling goroutine
-	curDesc  string
-	locks    bool              // sequential mode: print the lock trace of every operation
-	imgOut     func(string) // where disk images for the structure checker go (nil: none)
-	fsckEvery  int          // image after every N counted operations
-	fsckDue    bool
-	opCount    int
-	imgCount   int
-	movedDirs  []uint64     // directories moved to another parent by RENAME (known finding: stale "..")
-	recovered  bool         // this server was started on a crash image: half-freed objects may exist
-	crossRenames int        // successful renames between two different directories
+	r            *Rng
+	d            *SparseDisk
+	srv          *nfs.Nfs
+	unstable     bool
+	objs         map[string]*objInfo // by handle hex: believed live
+	dirs         map[string]*dirInfo
+	stale        [][]byte
+	nameCtr      int
+	dead         bool // server panicked or hung
+	hist         map[string]int
+	opTimeout    time.Duration
+	cur          [][]byte        // handle-typed arguments of the operation being issued
+	deadH        map[string]bool // handles of objects known to be removed or overwritten
+	issued       map[string]bool // every handle a creation ever returned
+	c09          bool            // compare full dumps around failing operations
+	lastDump     string
+	lastFree     [2]uint64
+	nOracle      int
+	sink         func(string) // where this run's lines go (default: stdout)
+	slotHook     func() int   // concurrent mode: the slot captured under the locks
+	pool         []string     // concurrent mode: shared pool of names
+	inline       bool         // concurrent mode: run calls in the calling goroutine
+	curDesc      string
+	locks        bool         // sequential mode: print the lock trace of every operation
+	imgOut       func(string) // where disk images for the structure checker go (nil: none)
+	fsckEvery    int          // image after every N counted operations
+	fsckDue      bool
+	opCount      int
+	imgCount     int
+	movedDirs    []uint64 // directories moved to another parent by RENAME (known finding: stale "..")
+	recovered    bool     // this server was started on a crash image: half-freed objects may exist
+	crossRenames int      // successful renames between two different directories
 	lastStatus   nfstypes.Nfsstat3
 }
 
